@@ -3,6 +3,7 @@
 package interpreter
 
 import (
+	"strconv"
 	"github.com/truora/minidyn/internal/nd"
 	"github.com/truora/minidyn/types"
 )
@@ -127,5 +128,40 @@ func VerifC12Decimal() {
 	err := li.Update(UpdateInput{TableName: "t", Expression: "SET a = a + :n", Item: item, Attributes: map[string]*types.Item{":n": {N: &n}}})
 	nd.Assert(err == nil && item["a"] != nil && item["a"].N != nil, "C12-decimal-noerr")
 	nd.Assert(*item["a"].N == c[2], "C12-decimal-arithmetic-is-exact")
+	nd.Reach("end")
+}
+
+// VerifC12Bystander: an update leaves the numeric value of numbers it does not target unchanged, for
+// numerals in exponent form and beyond the int64 range that a double represents exactly.
+func VerifC12Bystander() {
+	numerals := []string{"1e20", "100000000000000000000", "-1e19", "1e22", "9223372036854775808", "-9223372036854775808", "4611686018427387904", "1.5", "-0.25", "1e-3", "0"}
+	b := numerals[nd.Choice("numeral", len(numerals))]
+	exprs := []string{"SET a = :v", "REMOVE a", "ADD n :one", "SET c = b"}
+	e := exprs[nd.Choice("expr", len(exprs))]
+	one, seven, v := "1", "7", nd.StringN("v", 1)
+	item := map[string]*types.Item{"a": {S: &v}, "n": {N: &seven}, "b": {N: &b}, "l": {L: []*types.Item{{N: &b}}}}
+	vals := map[string]*types.Item{}
+	if e == "SET a = :v" {
+		vals[":v"] = &types.Item{S: &v}
+	}
+	if e == "ADD n :one" {
+		vals[":one"] = &types.Item{N: &one}
+	}
+	li := &Language{}
+	err := li.Update(UpdateInput{TableName: "t", Expression: e, Item: item, Attributes: vals})
+	nd.Assert(err == nil, "C12-bystander-noerr")
+	same := func(it *types.Item) bool {
+		if it == nil || it.N == nil {
+			return false
+		}
+		got, err1 := strconv.ParseFloat(*it.N, 64)
+		want, err2 := strconv.ParseFloat(b, 64)
+		return err1 == nil && err2 == nil && got == want
+	}
+	nd.Assert(same(item["b"]), "C12-untargeted-number-keeps-its-value ["+b+"]")
+	nd.Assert(item["l"] != nil && len(item["l"].L) == 1 && same(item["l"].L[0]), "C12-untargeted-nested-number-keeps-its-value ["+b+"]")
+	if e == "SET c = b" {
+		nd.Assert(same(item["c"]), "C12-copied-number-keeps-its-value ["+b+"]")
+	}
 	nd.Reach("end")
 }
